@@ -102,8 +102,11 @@ class PythonCryptoEndpoint(CryptoEndpoint, EndpointListener):
         Callback for when data is received on this endpoint.
         """
         source_address, datagram = packet
-        if datagram.startswith(self.prefix) and datagram[22] == CellPayload.msg_id:
-            self.process_cell(source_address, datagram)
+        if datagram.startswith(self.prefix) and datagram[22:23] == bytes([CellPayload.msg_id]):
+            try:
+                self.process_cell(source_address, datagram)
+            except Exception:
+                self.logger.exception("Exception occurred while handling cell!")
         elif self.tunnel_community:
             self.tunnel_community.on_packet(packet)
 
